@@ -130,6 +130,10 @@ def cases(tier, seed):
     for gen in (4, 5):
         yield {"gen": gen, "mode": "api", "pattern": [None] * N, "anchor": "D6"}
         yield {"gen": gen, "mode": "api", "pattern": [0.0] * N}
+        # hours of silence on a console that keeps accepting connections: the 30th reset comes
+        # like the first
+        yield {"gen": gen, "mode": "api", "pattern": [None] * 34}
+        yield {"gen": gen, "mode": "api", "pattern": [None] * 25 + [0.0, 0.0] + [None] * 25}
     kmax = 4 if tier == "quick" else 6
     for k in range(1, kmax + 1):
         for pat in itertools.product([0.0, 45.0, None], repeat=k):
@@ -295,7 +299,8 @@ def note_outages(obs, case, wins, want_reqs, T0, I, tie, log, out):
     if not wins:
         return
     end = tie if tie is not None else out["end"]
-    ticks = [T0 + k * I for k in range(N + 1) if T0 + k * I < end]
+    ticks = [T0 + k * I for k in range(max(N, len(case.get("pattern") or [])) + 1)
+             if T0 + k * I < end]
     skipped = [t for t in ticks if any(a <= t < b for a, b in wins)]
     if skipped:
         obs["ticks_while_link_down"] = len(skipped)
@@ -425,7 +430,7 @@ def run_api(case):
                 log.add("SCRIPT.outage", down=out["T0"] + 330.0, after_reset=True,
                         up=out["T0"] + 330.0 + 2.0 * case["refuse_after_reset"])
             loop.create_task(refuser())
-        await asyncio.sleep(N * 300.0 + 10.0)
+        await asyncio.sleep(max(N, len(pattern)) * 300.0 + 10.0)
         out["end"] = loop.time()
         out["m1"] = log.mark()
         if drv is not None:
